@@ -2,25 +2,23 @@ import InfluxQL.Lemmas.SetTimeRange
 /-
 C18 — SetTimeRange replaces earlier time bounds, over any sequence of windows.
 
-Model: `Model/SetTimeRange.lean` (`rewriteNoTime` = `rewriteWithoutTimeDimensions` before
-printing, `rewrittenText` = the string it returns — in parentheses when the rewritten condition is
-an `OR` —, `setTimeRange` = print → `ParseExpr` → `CReduce(·, nil)`, `setTimeRangeSeq`),
-`Model/SetTimeRangeSpec.lean` (`nonTimeHolds`, the class `strClass`, `groupForAnd`, the hypotheses
-`RT`, `WindowOK`). The model follows /repo after the fixes 51161c4 (a bound is recognised by a
-reference to `time` on either side, in any letter case, typed or not), 86fc254 (calls are kept) and
-the fix of C18-top-level-or-captures-the-window (an `OR` at the top is parenthesised before
-` AND <window>` is appended). The meaning of a condition at a point is C10's `holds`; by
+Model: `Model/SetTimeRange.lean` (`rewriteNoTime` = the rewrite inside `rewriteWithoutTimeDimensions`,
+`groupForAnd` = its last step — a `ParenExpr` around the result when that is an `OR` —,
+`setTimeRangeTree` = the tree `(<that> AND time >= start) AND time < end` built from `BinaryExpr` /
+`VarRef` / `StringLiteral` nodes, `setTimeRange` = `CReduce(·, nil)` of it, `setTimeRangeSeq`),
+`Model/SetTimeRangeSpec.lean` (`nonTimeHolds`, the class `strClass`, `stepSpec`, `WindowOK`, and the
+text route of the previous implementation, for comparison only). The model follows /repo after the
+fixes 51161c4 (a bound is recognised by a reference to `time` on either side, in any letter case,
+typed or not), 86fc254 (calls are kept), d61fb53 (an `OR` at the top is grouped) and the fix of
+C18-condition-does-not-reparse / C18-folded-time-literal-comes-back-as-string: **the new condition
+is built as a tree; nothing is printed and parsed inside `SetTimeRange` any more.** The theorems
+below therefore no longer carry a print → parse hypothesis (`RT` / `RTSeq` before): they hold for
+every condition of the class. The meaning of a condition at a point is C10's `holds`; by
 `C10.split_sound` this is also what `ConditionExpr` observes on the conditions concerned.
 
-Hypotheses, all explicit in the statements:
-* `RT` / `RTSeq` — the text `SetTimeRange` prints parses to the tree it is the print of
-  (`expectedTree`: the grouped rewritten condition conjoined with the two bounds;
-  `RT_iff_print_parse`): the plain print → parse round trip of C02/C03 on this fragment. Nothing is assumed about the top operator
-  of the condition any more: the theorems cover a top-level `OR` like every other condition of the
-  class (`setTimeRange_top_level_or`, `top_level_or_keeps_window`); for a concrete condition and
-  window sequence the hypothesis is decided by running the parser model in the kernel
-  (`RT_of_rtCheck`, `RTSeq_of_rtSeqCheck`);
-* `WindowOK` — the printed window instants read back exactly;
+Hypotheses left, all explicit in the statements:
+* `WindowOK` — the window instants, printed with `Format(RFC3339Nano)` into the two string literals,
+  read back exactly when `ConditionExpr` / `holds` interpret those literals as times;
 * `isTimeRef tbl timeVar` — the lower-casing table shipped for non-ASCII runes does not touch the
   letters of `time` (true for every table the harness produces; `by decide` for `[]`).
 -/
@@ -29,33 +27,54 @@ open InfluxQL Gen
 open InfluxQL.CondTime
 
 /-- `OR` is the only operator that binds looser than `AND` (generated precedence table): it is the
-only top node that the appended ` AND <window>` could regroup, and the one `rewrittenText`
-parenthesises. -/
+only top node that would regroup when the new condition `<it> AND <window>` is printed and parsed
+again, and the one `rewriteWithoutTimeDimensions` puts in a parenthesis node. -/
 theorem gen_only_or_binds_looser_than_and :
     ∀ t ∈ Token.all, t.isOperator = true → (t.precedence < Token.AND.precedence ↔ t = .OR) := by
   decide +kernel
 
-/-- What stands left of the appended `AND` never has an `OR` at the top, and is the rewritten
-condition itself unless that is an `OR` (then it is that condition in parentheses); the text
-handed to the parser is the print of this tree followed by ` AND <bounds>`. -/
+/-- The left operand of the new `AND` never has an `OR` at the top, and is the rewritten condition
+itself unless that is an `OR` (then it is that condition in a parenthesis node); the tree handed to
+`Reduce` is `(<it> AND time >= start) AND time < end`. -/
 theorem grouped_never_or (tbl : List (Char × Char)) (c : Expr) (w : Window) :
     topIsOr (groupForAnd (rewriteNoTime tbl c)) = false ∧
     (topIsOr (rewriteNoTime tbl c) = false → groupForAnd (rewriteNoTime tbl c) = rewriteNoTime tbl c) ∧
     (topIsOr (rewriteNoTime tbl c) = true → groupForAnd (rewriteNoTime tbl c) = .paren (rewriteNoTime tbl c)) ∧
-    setTimeRangeText tbl (some c) w =
-      (groupForAnd (rewriteNoTime tbl c)).print ++ [' ', 'A', 'N', 'D', ' '] ++ boundsText w :=
-  ⟨topIsOr_groupForAnd _, groupForAnd_of_not_or _, fun h => by simp [groupForAnd, h], setTimeRangeText_eq tbl c w⟩
+    setTimeRangeTree tbl (some c) w =
+      .binary .AND (.binary .AND (groupForAnd (rewriteNoTime tbl c)) (geBound w.start)) (ltBound w.stop) :=
+  ⟨topIsOr_groupForAnd _, groupForAnd_of_not_or _, fun h => by simp [groupForAnd, h], rfl⟩
 
-/-- **The hypothesis `RT` is the plain print → parse round trip**: the text `SetTimeRange` builds with
-`fmt.Sprintf` is, character for character, `String()` of `expectedTree` (the grouped rewritten
-condition conjoined with the two bounds), for every condition and window; so `RT` says
-`ParseExpr (T.String()) = T` for that one tree and nothing else. -/
-theorem RT_iff_print_parse (tbl : List (Char × Char)) (c : Expr) (w : Window) :
-    setTimeRangeText tbl (some c) w = (expectedTree tbl c w).print ∧
-    (RT tbl c w ↔ parseExprText (expectedTree tbl c w).print [] tbl = .ok (expectedTree tbl c w)) := by
-  refine ⟨setTimeRangeText_is_print tbl c w, ?_⟩
-  unfold RT
-  rw [setTimeRangeText_is_print]
+/-- **`SetTimeRange` never fails**, whatever the condition is — any expression, in the class or not,
+or no condition at all: the result is `Reduce(·, nil)` of the tree built; and any sequence of calls
+yields one condition per window. (The text route failed where the rewritten text did not parse,
+e.g. `host =~ /a/ + time`, and changed the tree where printing and parsing is not the identity.) -/
+theorem setTimeRange_total (fa : FloatArith) (tbl : List (Char × Char)) (cond : Option Expr) (w : Window) :
+    setTimeRange fa tbl cond w = .ok (CReduce (nilRCtx fa) (setTimeRangeTree tbl cond w)) ∧
+    ∀ ws, ∃ cs : List Expr, setTimeRangeSeq fa tbl cond ws = cs.map Except.ok ∧ cs.length = ws.length := by
+  refine ⟨rfl, fun ws => ?_⟩
+  induction ws generalizing cond with
+  | nil => exact ⟨[], rfl, rfl⟩
+  | cons w' ws ih =>
+    obtain ⟨cs, h1, h2⟩ := ih (some (CReduce (nilRCtx fa) (setTimeRangeTree tbl cond w')))
+    refine ⟨CReduce (nilRCtx fa) (setTimeRangeTree tbl cond w') :: cs, ?_, by simp [h2]⟩
+    simp only [setTimeRangeSeq, setTimeRange, h1, List.map_cons]
+
+/-- **Predicates reach `Reduce` as the trees they are** (what the two former findings were about):
+for *any* expression `c` none of whose binary nodes has a reference to time as an operand — arithmetic
+with negated operands such as `n % -a > 1`, time literals left by an earlier `Reduce`, anything — the
+rewrite is the identity, so the new condition is `Reduce(·, nil)` of `(c AND time >= start) AND time <
+end` with `c` itself (inside a parenthesis node when it is an `OR`) as the operand: no node of `c` is
+regrouped or changes its kind on the way. -/
+theorem predicates_reach_reduce_untouched (fa : FloatArith) (tbl : List (Char × Char)) (c : Expr) (w : Window)
+    (h : noTimeBound tbl c = true) :
+    rewriteNoTime tbl c = c ∧
+    setTimeRange fa tbl (some c) w = .ok (CReduce (nilRCtx fa)
+      (.binary .AND (.binary .AND (groupForAnd c) (geBound w.start)) (ltBound w.stop))) := by
+  have e := rewriteNoTime_noTimeBound tbl c h
+  refine ⟨e, ?_⟩
+  show Except.ok (CReduce (nilRCtx fa) (.binary .AND (.binary .AND (groupForAnd (rewriteNoTime tbl c))
+    (geBound w.start)) (ltBound w.stop))) = _
+  rw [e]
 
 /-- **One call.** For a condition of the class (time bounds with `time` — any letter case, any
 type annotation — on either side of any operator, other predicates comparing a tag or field with a
@@ -63,24 +82,24 @@ reference, literal or call; `AND`, parentheses, and `OR` between time-free condi
 top**), `SetTimeRange(start, end)` succeeds and the new condition holds at a point exactly when
 `start ≤ t < end` and the non-time part of the old condition holds; the new condition is again in
 the class, has the same non-time part, and has at most eight nodes more than the old one — nine
-when the parentheses around a top-level `OR` are added (`parenCost`). -/
+when the parentheses around a top-level `OR` are added (`parenCost`). No hypothesis about printing
+and parsing: there is none in the code any more. -/
 theorem setTimeRange_step (ctx : CCtx) (fa : FloatArith) (c : Expr) (w : Window)
-    (hcls : strClass ctx.lowerTbl c = true) (hT : isTimeRef ctx.lowerTbl timeVar = true)
-    (hrt : RT ctx.lowerTbl c w) :
+    (hcls : strClass ctx.lowerTbl c = true) (hT : isTimeRef ctx.lowerTbl timeVar = true) :
     ∃ c', setTimeRange fa ctx.lowerTbl (some c) w = .ok c' ∧ c' = stepSpec fa ctx.lowerTbl c w ∧
       (WindowOK ctx w → ∀ L t, holds ctx L t c' = (w.contains t && nonTimeHolds ctx.lowerTbl L c)) ∧
       strClass ctx.lowerTbl c' = true ∧
       (∀ L, nonTimeHolds ctx.lowerTbl L c' = nonTimeHolds ctx.lowerTbl L c) ∧
       c'.size ≤ c.size + 8 + parenCost ctx.lowerTbl c := by
-  refine ⟨stepSpec fa ctx.lowerTbl c w, setTimeRange_of_RT ctx.lowerTbl fa c w hcls hrt, rfl, ?_⟩
+  refine ⟨stepSpec fa ctx.lowerTbl c w, rfl, rfl, ?_⟩
   obtain ⟨hN, hev, hsz⟩ := ntPart_spec ctx.lowerTbl fa c hcls
   obtain ⟨b1, b2, b3, b4, _⟩ := build_spec ctx fa (ntPart fa ctx.lowerTbl c) w hN hT
-  rw [stepSpec_eq]
+  rw [stepSpec_eq fa ctx.lowerTbl c w hcls]
   refine ⟨?_, b1, ?_, ?_⟩
   · intro hw L t
-    rw [show creduce (nilRCtx fa) (groupForAnd (rewriteNoTime ctx.lowerTbl c)) = ntPart fa ctx.lowerTbl c from rfl, b3 hw L t, hev L]
+    rw [b3 hw L t, hev L]
   · intro L
-    rw [show creduce (nilRCtx fa) (groupForAnd (rewriteNoTime ctx.lowerTbl c)) = ntPart fa ctx.lowerTbl c from rfl, b2 L, hev L]
+    rw [b2 L, hev L]
   · exact Nat.le_trans b4 (by omega)
 
 /-- **A top-level `OR`** (the case of the former finding C18-top-level-or-captures-the-window): for
@@ -88,11 +107,11 @@ theorem setTimeRange_step (ctx : CCtx) (fa : FloatArith) (c : Expr) (w : Window)
 when `start ≤ t < end` **and** one of the disjuncts holds — the window guards every disjunct. -/
 theorem setTimeRange_top_level_or (ctx : CCtx) (fa : FloatArith) (l r : Expr) (w : Window)
     (hcls : strClass ctx.lowerTbl (.binary .OR l r) = true) (hT : isTimeRef ctx.lowerTbl timeVar = true)
-    (hrt : RT ctx.lowerTbl (.binary .OR l r) w) (hw : WindowOK ctx w) :
+    (hw : WindowOK ctx w) :
     ∃ c', setTimeRange fa ctx.lowerTbl (some (.binary .OR l r)) w = .ok c' ∧
       ∀ L t, holds ctx L t c' =
         (w.contains t && (nonTimeHolds ctx.lowerTbl L l || nonTimeHolds ctx.lowerTbl L r)) := by
-  obtain ⟨c', h1, _, h3, _⟩ := setTimeRange_step ctx fa _ w hcls hT hrt
+  obtain ⟨c', h1, _, h3, _⟩ := setTimeRange_step ctx fa _ w hcls hT
   refine ⟨c', h1, fun L t => ?_⟩
   rw [h3 hw L t]
   simp [nonTimeHolds]
@@ -103,7 +122,7 @@ residual has the value of the old non-time part, and its range is exactly `[star
 needed). Window instants must be representable time literals (`MinTime < t ≤ MaxTime`). -/
 theorem setTimeRange_observed (ctx : CCtx) (fa : FloatArith) (c : Expr) (w : Window)
     (hcls : strClass ctx.lowerTbl c = true) (hT : isTimeRef ctx.lowerTbl timeVar = true)
-    (hrt : RT ctx.lowerTbl c w) (hw : WindowOK ctx w) (hr : w.inRange) :
+    (hw : WindowOK ctx w) (hr : w.inRange) :
     ∃ c' res tr, setTimeRange fa ctx.lowerTbl (some c) w = .ok c' ∧
       ConditionExpr ctx (some c') = .ok (res, tr) ∧
       (∀ L, evalOpt L res = nonTimeHolds ctx.lowerTbl L c) ∧
@@ -111,8 +130,8 @@ theorem setTimeRange_observed (ctx : CCtx) (fa : FloatArith) (c : Expr) (w : Win
       (ntPart fa ctx.lowerTbl c = .boolean false → tr = {}) := by
   obtain ⟨hN, hev, _⟩ := ntPart_spec ctx.lowerTbl fa c hcls
   obtain ⟨res, tr, h1, h2, h3, h4⟩ := conditionExpr_build ctx fa (ntPart fa ctx.lowerTbl c) w hN hT hw hr
-  refine ⟨stepSpec fa ctx.lowerTbl c w, res, tr, setTimeRange_of_RT ctx.lowerTbl fa c w hcls hrt, ?_, ?_, h3, h4⟩
-  · rw [stepSpec_eq]; exact h1
+  refine ⟨stepSpec fa ctx.lowerTbl c w, res, tr, rfl, ?_, ?_, h3, h4⟩
+  · rw [stepSpec_eq fa ctx.lowerTbl c w hcls]; exact h1
   · intro L; rw [h2 L, hev L]
 
 /-- The condition `k` calls later corresponds to window `k`, for every `k`. -/
@@ -152,10 +171,10 @@ theorem core_step (ctx : CCtx) (fa : FloatArith) (c : Expr) (w : Window)
       (stepSpec fa ctx.lowerTbl c w).size ≤ core fa ctx.lowerTbl c + 8 := by
   obtain ⟨hN, _, _⟩ := ntPart_spec ctx.lowerTbl fa c hcls
   obtain ⟨_, _, _, b4, b5⟩ := build_spec ctx fa (ntPart fa ctx.lowerTbl c) w hN hT
-  rw [stepSpec_eq]
+  rw [stepSpec_eq fa ctx.lowerTbl c w hcls]
   refine ⟨?_, b4⟩
   unfold core
-  rw [show ntPart fa ctx.lowerTbl (build fa (creduce (nilRCtx fa) (groupForAnd (rewriteNoTime ctx.lowerTbl c))) w)
+  rw [show ntPart fa ctx.lowerTbl (build fa (ntPart fa ctx.lowerTbl c) w)
       = creduce (nilRCtx fa) (groupForAnd (rewriteNoTime ctx.lowerTbl (build fa (ntPart fa ctx.lowerTbl c) w))) from rfl, b5]
   exact (reduce_resTF ctx.lowerTbl (nilRCtx fa) _ hN).2
 
@@ -164,19 +183,18 @@ call `k` the condition holds exactly on window `k` and the non-time part of the 
 condition — no earlier window and no earlier bound is left — and its size stays within eight nodes
 of `core c`, the size of the reduced non-time part (itself at most the original size, plus one for
 the parentheses around a top-level `OR`), however many calls were made. By induction on the window
-list. -/
+list; for every condition of the class and every window list, without further hypothesis. -/
 theorem setTimeRange_seq (ctx : CCtx) (fa : FloatArith) (hT : isTimeRef ctx.lowerTbl timeVar = true) :
-    ∀ (ws : List Window) (c : Expr), strClass ctx.lowerTbl c = true → RTSeq fa ctx.lowerTbl c ws →
+    ∀ (ws : List Window) (c : Expr), strClass ctx.lowerTbl c = true →
       ∃ cs : List Expr, setTimeRangeSeq fa ctx.lowerTbl (some c) ws = cs.map Except.ok ∧
         SeqOK (fun c' w =>
           (WindowOK ctx w → ∀ L t, holds ctx L t c' = (w.contains t && nonTimeHolds ctx.lowerTbl L c)) ∧
           c'.size ≤ core fa ctx.lowerTbl c + 8) cs ws
-  | [], c, _, _ => ⟨[], rfl, trivial⟩
-  | w :: ws, c, hcls, hrt => by
-    obtain ⟨hrt1, hrts⟩ := hrt
-    obtain ⟨c', hset, hc', hholds, hcls', hnt, _⟩ := setTimeRange_step ctx fa c w hcls hT hrt1
+  | [], c, _ => ⟨[], rfl, trivial⟩
+  | w :: ws, c, hcls => by
+    obtain ⟨c', hset, hc', hholds, hcls', hnt, _⟩ := setTimeRange_step ctx fa c w hcls hT
     subst hc'
-    obtain ⟨cs, hcs, hok⟩ := setTimeRange_seq ctx fa hT ws (stepSpec fa ctx.lowerTbl c w) hcls' hrts
+    obtain ⟨cs, hcs, hok⟩ := setTimeRange_seq ctx fa hT ws (stepSpec fa ctx.lowerTbl c w) hcls'
     have hcore := core_step ctx fa c w hcls hT
     refine ⟨stepSpec fa ctx.lowerTbl c w :: cs, ?_, ⟨hholds, hcore.2⟩, ?_⟩
     · simp only [setTimeRangeSeq, hset, hcs, List.map_cons]
@@ -190,10 +208,10 @@ theorem setTimeRange_seq (ctx : CCtx) (fa : FloatArith) (hT : isTimeRef ctx.lowe
 original condition plus `K = 9` nodes (the two bounds, the two `AND`s, and the parentheses around a
 top-level `OR`; `8` when the condition has no `OR` at the top). -/
 theorem size_bounded (ctx : CCtx) (fa : FloatArith) (hT : isTimeRef ctx.lowerTbl timeVar = true)
-    (ws : List Window) (c : Expr) (hcls : strClass ctx.lowerTbl c = true) (hrt : RTSeq fa ctx.lowerTbl c ws) :
+    (ws : List Window) (c : Expr) (hcls : strClass ctx.lowerTbl c = true) :
     ∃ cs : List Expr, setTimeRangeSeq fa ctx.lowerTbl (some c) ws = cs.map Except.ok ∧
       ∀ c' ∈ cs, c'.size ≤ c.size + 8 + parenCost ctx.lowerTbl c ∧ c'.size ≤ c.size + 9 := by
-  obtain ⟨cs, h1, h2⟩ := setTimeRange_seq ctx fa hT ws c hcls hrt
+  obtain ⟨cs, h1, h2⟩ := setTimeRange_seq ctx fa hT ws c hcls
   refine ⟨cs, h1, ?_⟩
   have hc := core_le_size ctx.lowerTbl fa c hcls
   have hp := parenCost_le_one ctx.lowerTbl c
@@ -206,11 +224,10 @@ theorem size_bounded (ctx : CCtx) (fa : FloatArith) (hT : isTimeRef ctx.lowerTbl
 holds exactly on the last window and the original non-time part. -/
 theorem only_last_window_applies (ctx : CCtx) (fa : FloatArith) (hT : isTimeRef ctx.lowerTbl timeVar = true)
     (ws : List Window) (wl : Window) (c : Expr) (hcls : strClass ctx.lowerTbl c = true)
-    (hrt : RTSeq fa ctx.lowerTbl c (ws ++ [wl])) (hw : WindowOK ctx wl) :
+    (hw : WindowOK ctx wl) :
     ∃ cs cl, setTimeRangeSeq fa ctx.lowerTbl (some c) (ws ++ [wl]) = (cs ++ [cl]).map Except.ok ∧
       ∀ L t, holds ctx L t cl = (wl.contains t && nonTimeHolds ctx.lowerTbl L c) := by
-  obtain ⟨cs, h1, h2⟩ := setTimeRange_seq ctx fa hT (ws ++ [wl]) c hcls hrt
-  clear hrt
+  obtain ⟨cs, h1, h2⟩ := setTimeRange_seq ctx fa hT (ws ++ [wl]) c hcls
   have key : ∀ (cs : List Expr) (ws : List Window) (P : Expr → Window → Prop), SeqOK P cs (ws ++ [wl]) →
       ∃ cs' cl, cs = cs' ++ [cl] ∧ P cl wl := by
     intro cs
@@ -230,6 +247,24 @@ theorem only_last_window_applies (ctx : CCtx) (fa : FloatArith) (hT : isTimeRef 
   subst e
   exact ⟨cs', cl, h1, p.1 hw⟩
 
+/-! ### The text route of the previous implementation (comparison only) -/
+
+/-- The text the previous `SetTimeRange` built with `fmt.Sprintf` was, character for character,
+`String()` of the tree the current one builds (printed instants contain only digits and
+`- T : . Z`, which `QuoteString` does not escape; `time` needs no quotes) — for every condition and
+window. So the old result was `Reduce(ParseExpr(T.String()))` where the new one is `Reduce(T)`. -/
+theorem text_route_printed_the_tree (tbl : List (Char × Char)) (c : Expr) (w : Window) :
+    setTimeRangeText tbl (some c) w = (setTimeRangeTree tbl (some c) w).print :=
+  setTimeRangeText_is_print tbl c w
+
+/-- Wherever that print parsed back to the tree, the previous implementation computed exactly what
+the current one computes: the fix changes the result only where print → parse is not the identity
+(or fails). -/
+theorem text_route_agrees_when_round_trip (fa : FloatArith) (tbl : List (Char × Char)) (c : Expr) (w : Window)
+    (h : parseExprText (setTimeRangeTree tbl (some c) w).print [] tbl = .ok (setTimeRangeTree tbl (some c) w)) :
+    textRoute fa tbl (some c) w = setTimeRange fa tbl (some c) w :=
+  textRoute_eq_of_round_trip fa tbl c w h
+
 /-! ### Kernel-checked examples of the repaired behaviours -/
 
 def ctx0 : CCtx := { r := { valuer := some ⟨946684800000000000, none⟩, fa := fun _ _ _ => ⟨false, 0, 0⟩ } }
@@ -238,10 +273,14 @@ def hostEqA : Expr := .binary .EQ (.varRef ['h', 'o', 's', 't'] .Unknown) (.stri
 def hostEqB : Expr := .binary .EQ (.varRef ['h', 'o', 's', 't'] .Unknown) (.string ['b'])
 /-- `[1970-01-01T00:16:40Z, 1970-01-01T00:17:40Z)`. -/
 def w1 : Window := ⟨1000000000000, 1060000000000⟩
+/-- `[1970-01-01T00:17:40Z, 1970-01-01T00:18:40Z)`. -/
+def w2 : Window := ⟨1060000000000, 1120000000000⟩
 def allTrue : Expr → Bool := fun _ => true
 
 theorem table_ok : isTimeRef ctx0.lowerTbl timeVar = true := by decide
 theorem window_ok : WindowOK ctx0 w1 := by
+  refine ⟨?_, ?_, ?_, ?_⟩ <;> decide
+theorem window2_ok : WindowOK ctx0 w2 := by
   refine ⟨?_, ?_, ?_, ?_⟩ <;> decide
 
 /-- `'2000-01-01T00:00:00Z' <= time AND host = 'a'` (bound written with `time` on the right; kept
@@ -284,58 +323,88 @@ theorem call_in_predicate_kept :
     (stepSpec fa0 ctx0.lowerTbl c2 w1).print = (stepSpec fa0 ctx0.lowerTbl c w1).print := by
   decide +kernel
 
-/-- `host = 'a' OR host = 'b'` (regrouped to `host = 'a' OR (host = 'b' AND <window>)` before the
-fix): in the class; the text handed to the parser is `(host = 'a' OR host = 'b') AND time >= … AND
-time < …`; the parser model, run in the kernel on that text, returns the tree it was printed from
-(`RT` holds); the new condition is `AND (AND (paren (OR …)) ge) lt`; at a point outside the window
-it does not hold although both `host` predicates do, inside the window it holds. -/
+/-- `host = 'a' OR host = 'b'` (regrouped to `host = 'a' OR (host = 'b' AND <window>)` before
+d61fb53): in the class; the new condition is `AND (AND (paren (OR …)) ge) lt`; it prints as
+`(host = 'a' OR host = 'b') AND time >= … AND time < …`, and that text parses back to the same tree
+(the parser model is run in the kernel: what a continuous query stored as text reads back is the
+condition that was set); at a point outside the window it does not hold although both `host`
+predicates do, inside the window it holds. -/
 theorem top_level_or_keeps_window :
     let c := Expr.binary .OR hostEqA hostEqB
+    let c' := Expr.binary .AND (.binary .AND (.paren c) (geBound w1.start)) (ltBound w1.stop)
     strClass ctx0.lowerTbl c = true ∧
-    setTimeRangeText ctx0.lowerTbl (some c) w1 = ("(host = 'a' OR host = 'b') AND " ++
+    setTimeRange fa0 ctx0.lowerTbl (some c) w1 = .ok c' ∧
+    c'.print = ("(host = 'a' OR host = 'b') AND " ++
       "time >= '1970-01-01T00:16:40Z' AND time < '1970-01-01T00:17:40Z'").toList ∧
-    RT ctx0.lowerTbl c w1 ∧
-    setTimeRange fa0 ctx0.lowerTbl (some c) w1 =
-      .ok (.binary .AND (.binary .AND (.paren c) (geBound w1.start)) (ltBound w1.stop)) ∧
-    (w1.contains 5 = false ∧
-      holds ctx0 allTrue 5 (.binary .AND (.binary .AND (.paren c) (geBound w1.start)) (ltBound w1.stop)) = false) ∧
-    (w1.contains 1000000000001 = true ∧
-      holds ctx0 allTrue 1000000000001 (.binary .AND (.binary .AND (.paren c) (geBound w1.start)) (ltBound w1.stop)) = true) := by
-  have hrt : RT ctx0.lowerTbl (Expr.binary .OR hostEqA hostEqB) w1 := RT_of_rtCheck _ _ _ (by decide +kernel)
-  refine ⟨by decide, by decide +kernel, hrt, ?_, by decide +kernel, by decide +kernel⟩
-  rw [setTimeRange_of_RT ctx0.lowerTbl fa0 _ w1 (by decide) hrt]
-  exact congrArg Except.ok (Expr.same_eq _ _ (by decide +kernel))
+    parseExprText c'.print [] ctx0.lowerTbl = .ok c' ∧
+    (w1.contains 5 = false ∧ holds ctx0 allTrue 5 c' = false) ∧
+    (w1.contains 1000000000001 = true ∧ holds ctx0 allTrue 1000000000001 c' = true) := by
+  refine ⟨by decide, ?_, by decide +kernel, ?_, by decide +kernel, by decide +kernel⟩
+  · exact congrArg Except.ok (Expr.same_eq _ _ (by decide +kernel))
+  · have h : (match parseExprText (Expr.binary .AND (.binary .AND (.paren (Expr.binary .OR hostEqA hostEqB))
+          (geBound w1.start)) (ltBound w1.stop)).print [] ctx0.lowerTbl with
+        | .ok e => Expr.same e (Expr.binary .AND (.binary .AND (.paren (Expr.binary .OR hostEqA hostEqB))
+          (geBound w1.start)) (ltBound w1.stop))
+        | .error _ => false) = true := by decide +kernel
+    split at h
+    · next e he => rw [he, Expr.same_eq e _ h]
+    · cases h
 
-/-! ### A defect that remains (outside the class of the theorems)
+/-! ### The two former findings, as positive examples
 
-Found with the thorough tier while carrying the top-level-OR fix through; it does not involve `OR`
-and is present before and after that fix. -/
+Both were defects of the text route (printing the rewritten condition and parsing it again), outside
+the class of the theorems above; both witnesses now come through any number of calls unchanged.
+Each example also records, by running the old route (`textRoute`) in the kernel, what it gave. -/
 
-/-- `7 - 0s != b`: a predicate with constant arithmetic (outside `strClass`, whose predicates have
-references, literals and calls as operands). -/
+/-- `n % -a > 1`, i.e. `n % (-1 * a) > 1` as the parser builds it: a predicate with a negated operand
+(outside `strClass`, whose predicates have references, literals and calls as operands). -/
+def negatedOperand : Expr :=
+  .binary .GT (.binary .MOD (.varRef ['n'] .Unknown) (.binary .MUL (.integer (-1)) (.varRef ['a'] .Unknown)))
+    (.integer 1)
+
+/-- **Former finding C18-condition-does-not-reparse.** The predicate prints as `n % -1 * a > 1`, which
+parses as `(n % -1) * a > 1` — that is what the text route set as the condition (n = a = 2.5: false
+before, true after). The tree-building `SetTimeRange` hands the predicate to `Reduce` as it is
+(`predicates_reach_reduce_untouched` applies): after one window, and after a second one, the
+condition is `(n % (-1 * a) > 1 AND time >= …) AND time < …` with the original grouping. -/
+theorem negated_operand_keeps_its_grouping :
+    let regrouped := Expr.binary .GT (.binary .MUL (.binary .MOD (.varRef ['n'] .Unknown) (.integer (-1)))
+      (.varRef ['a'] .Unknown)) (.integer 1)
+    let c1 := stepSpec fa0 ctx0.lowerTbl negatedOperand w1
+    let c2 := stepSpec fa0 ctx0.lowerTbl c1 w2
+    strClass ctx0.lowerTbl negatedOperand = false ∧ noTimeBound ctx0.lowerTbl negatedOperand = true ∧
+    Expr.same c1 (.binary .AND (.binary .AND negatedOperand (geBound w1.start)) (ltBound w1.stop)) = true ∧
+    Expr.same c2 (.binary .AND (.binary .AND negatedOperand (geBound w2.start)) (ltBound w2.stop)) = true ∧
+    c1.print = ("n % -1 * a > 1 AND time >= '1970-01-01T00:16:40Z' AND " ++
+      "time < '1970-01-01T00:17:40Z'").toList ∧
+    (match textRoute fa0 ctx0.lowerTbl (some negatedOperand) w1 with
+      | .ok e => Expr.same e (.binary .AND (.binary .AND regrouped (geBound w1.start)) (ltBound w1.stop))
+      | .error _ => false) = true := by
+  decide +kernel
+
+/-- `7 - 0s != b`: a predicate with constant arithmetic (outside `strClass`). -/
 def foldsToTime : Expr := .binary .NEQ (.binary .SUB (.integer 7) (.duration 0)) (.varRef ['b'] .Unknown)
 
-/-- **Open finding C18-folded-time-literal-comes-back-as-string.** The first call is fine (`RT`
-holds), and its `Reduce` folds `7 - 0s` to the time literal `1970-01-01T00:00:00.000000007Z`.
-A time literal has no spelling of its own: it prints as a quoted string. So on the second call the
-print → parse step fails (`rtCheck … = false`): the parser returns a *string* literal, and the
-predicate `<time> != b` has become `'1970-01-01T00:00:00.000000007Z' != b` — a different predicate
-(on the implementation: for b = "a" the first is false, the second true, so points are selected
-after the second call that were not selected after the first). The model reproduces the
-implementation here (correspondence stream); the same happens with `'2000-01-01' - 0`. -/
-theorem folded_time_literal_comes_back_as_string :
+/-- **Former finding C18-folded-time-literal-comes-back-as-string.** The `Reduce` of the first call
+folds `7 - 0s` to the time literal `1970-01-01T00:00:00.000000007Z`. A time literal has no spelling
+of its own: it prints as a quoted string, so the text route read it back as a *string* literal on the
+second call and the predicate `<time> != b` became `'1970-01-01T00:00:00.000000007Z' != b` (b = "a":
+false after the first call, true after the second). With the tree-building `SetTimeRange` the time
+literal is still a time literal after the second call (and after any further one: the condition after
+call 1 has no time bound left in its predicate, `predicates_reach_reduce_untouched`). -/
+theorem folded_time_literal_stays_a_time_literal :
     let b := Expr.varRef ['b'] .Unknown
     let c1 := stepSpec fa0 ctx0.lowerTbl foldsToTime w1
+    let c2 := stepSpec fa0 ctx0.lowerTbl c1 w2
     strClass ctx0.lowerTbl foldsToTime = false ∧
-    rtCheck ctx0.lowerTbl foldsToTime w1 = true ∧
     Expr.same c1 (.binary .AND (.binary .AND (.binary .NEQ (.time 7) b) (geBound w1.start)) (ltBound w1.stop)) = true ∧
-    c1.print = ("'1970-01-01T00:00:00.000000007Z' != b AND time >= '1970-01-01T00:16:40Z' AND " ++
-      "time < '1970-01-01T00:17:40Z'").toList ∧
-    rtCheck ctx0.lowerTbl c1 ⟨1060000000000, 1120000000000⟩ = false ∧
-    (match setTimeRange fa0 ctx0.lowerTbl (some c1) ⟨1060000000000, 1120000000000⟩ with
-      | .ok c2 => Expr.same c2 (.binary .AND (.binary .AND
+    Expr.same c2 (.binary .AND (.binary .AND (.binary .NEQ (.time 7) b) (geBound w2.start)) (ltBound w2.stop)) = true ∧
+    c2.print = ("'1970-01-01T00:00:00.000000007Z' != b AND time >= '1970-01-01T00:17:40Z' AND " ++
+      "time < '1970-01-01T00:18:40Z'").toList ∧
+    (match textRoute fa0 ctx0.lowerTbl (some c1) w2 with
+      | .ok e => Expr.same e (.binary .AND (.binary .AND
           (.binary .NEQ (.string "1970-01-01T00:00:00.000000007Z".toList) b)
-          (geBound 1060000000000)) (ltBound 1120000000000))
+          (geBound w2.start)) (ltBound w2.stop))
       | .error _ => false) = true := by
   decide +kernel
 
@@ -359,26 +428,25 @@ example : holds ctx0 allTrue 1000000000000 (stepSpec fa0 ctx0.lowerTbl sample w1
     holds ctx0 allTrue 1059999999999 (stepSpec fa0 ctx0.lowerTbl sample w1) = true ∧
     holds ctx0 allTrue 1060000000000 (stepSpec fa0 ctx0.lowerTbl sample w1) = false ∧
     holds ctx0 allTrue 999999999999 (stepSpec fa0 ctx0.lowerTbl sample w1) = false := by decide +kernel
+/-- `only_last_window_applies` instantiated on three windows; it needs nothing but the class, the
+table and the last window. -/
+example : ∃ cs cl, setTimeRangeSeq fa0 ctx0.lowerTbl (some sample) ([w1, ⟨5, 6⟩] ++ [w2]) = (cs ++ [cl]).map Except.ok ∧
+    ∀ L t, holds ctx0 L t cl = (w2.contains t && nonTimeHolds ctx0.lowerTbl L sample) :=
+  only_last_window_applies ctx0 fa0 table_ok [w1, ⟨5, 6⟩] w2 sample (by decide) window2_ok
 
 /-- `host = 'a' OR host = 'b' OR r = 'x'`: an `OR` at the top, through two successive windows. -/
 def sampleOr : Expr :=
   .binary .OR (.binary .OR hostEqA hostEqB) (.binary .EQ (.varRef ['r'] .Unknown) (.string ['x']))
-def w2 : Window := ⟨1060000000000, 1120000000000⟩
 /-- `host = 'a'` only. -/
 def onlyHostA : Expr → Bool := fun e => Expr.same e hostEqA
 
 example : strClass ctx0.lowerTbl sampleOr = true := by decide
 example : topIsOr (rewriteNoTime ctx0.lowerTbl sampleOr) = true ∧ parenCost ctx0.lowerTbl sampleOr = 1 := by decide
-/-- The print → parse hypothesis along both calls, decided by running the parser model. -/
-theorem sampleOr_rtSeq : RTSeq fa0 ctx0.lowerTbl sampleOr [w1, w2] :=
-  RTSeq_of_rtSeqCheck fa0 ctx0.lowerTbl _ _ (by decide +kernel)
-theorem window2_ok : WindowOK ctx0 w2 := by
-  refine ⟨?_, ?_, ?_, ?_⟩ <;> decide
 /-- `only_last_window_applies` instantiated: after the two calls the condition holds exactly on the
 second window and `host = 'a' OR host = 'b' OR r = 'x'`. -/
 example : ∃ cs cl, setTimeRangeSeq fa0 ctx0.lowerTbl (some sampleOr) ([w1] ++ [w2]) = (cs ++ [cl]).map Except.ok ∧
     ∀ L t, holds ctx0 L t cl = (w2.contains t && nonTimeHolds ctx0.lowerTbl L sampleOr) :=
-  only_last_window_applies ctx0 fa0 table_ok [w1] w2 sampleOr (by decide) sampleOr_rtSeq window2_ok
+  only_last_window_applies ctx0 fa0 table_ok [w1] w2 sampleOr (by decide) window2_ok
 example : (stepSpec fa0 ctx0.lowerTbl sampleOr w1).print =
     ("(host = 'a' OR host = 'b' OR r = 'x') AND time >= '1970-01-01T00:16:40Z' AND " ++
       "time < '1970-01-01T00:17:40Z'").toList := by decide +kernel
@@ -405,5 +473,8 @@ example : (stepSpec fa0 ctx0.lowerTbl (.binary .OR hostEqA (.boolean false)) w1)
     (stepSpec fa0 ctx0.lowerTbl (.binary .OR (.boolean true) hostEqA) w1).print =
       "time >= '1970-01-01T00:16:40Z' AND time < '1970-01-01T00:17:40Z'".toList := by
   decide +kernel
+/-- No condition at all: the window alone. -/
+example : setTimeRange fa0 ctx0.lowerTbl none w1 = .ok (.binary .AND (geBound w1.start) (ltBound w1.stop)) := by
+  exact congrArg Except.ok (Expr.same_eq _ _ (by decide +kernel))
 
 end InfluxQL.C18
